@@ -10,13 +10,67 @@ N_THOROUGH = 120000
 LEAN_MODULES = ["JSV.Props.C01"]
 RULE = ("the 1099 official 2020-12 cases first (expected verdicts known), then generated 2020-12 documents over the whole "
         "vocabulary with interaction-biased keyword mixes, each with 6 instances from shared pools; an operation is one "
-        "(document, instances) pair; non-trivial: the document has >= 2 keywords and the verdict vector is not constant or a "
+        "(document, instances) pair; 4 %: uniqueItems / const / enum over containers of strings that differ but concatenate to the same "
+        "character stream (pair followed by a duplicate of either member); non-trivial: the document has >= 2 keywords and the verdict vector is not constant or a "
         "reference is present; distinct = distinct operation text")
 TRUSTED = ["regular expressions: a parameter of the model; the driver's matcher is compared with Go's regexp on the pattern pool",
            "float64 arithmetic of multipleOf: exact on the generated domain (short dyadics)"]
 ASSUMPTIONS = ["schema recursion passes through an instance-descending keyword (model fuel filter)",
                "numbers are short dyadic rationals", "no duplicate anchors in one resource"]
 PREFILTER = vjudge.prefilter
+
+
+LOOK_WORDS = ["a", "b", "p", "q", "ab", "x", "é", "1", "k"]
+# separators: nothing at all, the letters a serialisation might use as type tags or delimiters, bytes that could pass for a length or a
+# terminator
+LOOK_SEPS = ["", "", "s", "s", "a", "o", "n", "z", "b", "t", "\u0000", "\u0001", "\u0002", ",", "\"", ":", "\u0000s", "ss"]
+
+
+def lookalike_case(rng):
+    """uniqueItems (and const / enum) on containers of strings that are DIFFERENT values but CONCATENATE to the same character stream:
+    the same words with the boundary between two adjacent strings moved across a separator, [w1+c+w2, w3] / [w1, w2+c+w3] as arrays, as
+    object key/value ({w1+c+w2: w3} / {w1: w2+c+w3}), nested, and with a scalar spelled out inside a string ([w1+"z", w2, w3] /
+    [w1, null, w2+c+w3]). Any digest of a value that writes its strings without length or terminator puts such look-alikes together; the
+    arrays then hold the pair followed by a duplicate of the first, of the second, of neither, in every order and with fillers between."""
+    w1, w2, w3 = (rng.choice(LOOK_WORDS) for _ in range(3))
+    c = rng.choice(LOOK_SEPS)
+    shape = rng.choice(["arr", "arr", "obj", "obj", "arr3", "nest", "objarr", "scalar"])
+    if shape == "arr":
+        X, Y = [w1 + c + w2, w3], [w1, w2 + c + w3]
+    elif shape == "obj":
+        X, Y = Obj([(w1 + c + w2, w3)]), Obj([(w1, w2 + c + w3)])
+    elif shape == "arr3":
+        X, Y = [w1, w2 + c + w3, w1], [w1 + c + w2, w3, w1]
+        if rng.random() < 0.5:
+            X, Y = [w3, w1 + c + w2, w3 + c + w1], [w3, w1, w2 + c + w3 + c + w1]
+    elif shape == "nest":
+        X, Y = [[w1 + c + w2, w3], "t"], [[w1, w2 + c + w3], "t"]
+        if rng.random() < 0.5:
+            X, Y = Obj([("k", [w1 + c + w2, w3])]), Obj([("k", [w1, w2 + c + w3])])
+    elif shape == "objarr":
+        X, Y = Obj([("k" + c + w1, [w2, w3])]), Obj([("k", [w1 + c + w2, w3])])
+        if rng.random() < 0.5:
+            X, Y = Obj([(w1, w2), (w1 + c + w3, "v")]), Obj([(w1, w2 + c + w1), (w1 + w3, "v")])
+    else:
+        sc, spelled = rng.choice([(None, "z"), (None, "\u0000"), (None, "null"), (False, "b\u0000"), (True, "b\u0001"), (False, "\u0000"),
+                                  (False, "false"), ([], "a"), (Obj(), "o"), ([], "[]"), ("", "s"), ("", "")])
+        X, Y = [w1 + spelled, w2, w3], [w1, sc, w2 + c + w3]
+        if rng.random() < 0.5:
+            X, Y = Y, X
+    if rng.random() < 0.5:
+        X, Y = Y, X
+    fill = rng.choice([Num("7"), "t", None, [w1, w3], Obj([(w1, w3)])])
+    insts = [[X, Y, Y], [X, Y, X], [Y, X, X], [X, Y], [X, fill, Y, fill], [X, Y, fill, Y], [fill, X, Y, Y, X], [X, Y, fill, [Y], Y],
+             [[X, Y, Y]], Y]
+    rng.shuffle(insts)
+    doc = rng.choice([Obj([("uniqueItems", True)]), Obj([("uniqueItems", True)]), Obj([("uniqueItems", True)]),
+                      Obj([("not", Obj([("uniqueItems", True)]))]),
+                      Obj([("items", Obj([("uniqueItems", True)])), ("uniqueItems", True)]),
+                      Obj([("uniqueItems", True), ("contains", Obj([("const", Y)])), ("maxContains", Num("1"))]),
+                      Obj([("anyOf", [Obj([("uniqueItems", True)]), Obj([("const", [X, Y, Y])])])]),
+                      Obj([("uniqueItems", True), ("items", Obj([("enum", [X, Y])]))]),
+                      Obj([("if", Obj([("uniqueItems", True)])), ("then", Obj([("maxItems", Num("2"))]))])])
+    return {"op": "validate", "args": {"schema": doc, "insts": insts, "usenumber": rng.random() < 0.3}, "meta": {"kw": 2, "lookalike": shape}}
 
 
 def gen(rng, tier, n):
@@ -62,6 +116,9 @@ def gen(rng, tier, n):
                              Obj([("uniqueItems", True)]), Obj([("oneOf", [Obj([("const", wrap(sp))]), Obj([("const", wrap(Num(sp)))])])])])
             insts = [wrap(sp), wrap(Num(sp)), wrap(Num("7")), wrap("7"), [wrap(sp), wrap(Num(sp))], [wrap(Num(sp)), wrap(Num(sp))], [sp, Num(sp), sp]]
             ops.append({"op": "validate", "args": {"schema": kw, "insts": insts, "usenumber": rng.random() < 0.6}, "meta": {"kw": 2}})
+            continue
+        if r < 0.45:
+            ops.append(lookalike_case(rng))
             continue
         c = gs.Ctx(rng, "2020", depth=rng.choice([1, 2, depth]))
         doc = gs.gen_document(c, gs.D2020_URI if rng.random() < 0.3 else None)
